@@ -4,6 +4,11 @@ package c12
 // origin/importance order, css-page-3 page selector specificity).  Written from the specifications;
 // shares no code with /repo.
 
+import (
+	"strconv"
+	"strings"
+)
+
 // pageFacts describes one page of the observed page sequence.
 type pageFacts struct {
 	Index int // 0-based
@@ -126,14 +131,68 @@ func expand4(v []int) [4]int {
 
 var sides4 = [4]string{"top", "right", "bottom", "left"}
 
+// cval is one cascaded value: a number with its unit ("px", "pt", "pc", "mm", "cm", "in", "q",
+// "em", "%") or the keyword auto (U = "auto").  Unitless properties (counters, mbox) use "px".
+type cval struct {
+	N float64
+	U string
+}
+
+// parseTok reads a literal CSS token of the generator: auto, 0, or <number><unit>.
+func parseTok(t string) cval {
+	if t == "auto" {
+		return cval{0, "auto"}
+	}
+	k := len(t)
+	for k > 0 && !(t[k-1] >= '0' && t[k-1] <= '9') && t[k-1] != '.' {
+		k--
+	}
+	n, err := strconv.ParseFloat(t[:k], 64)
+	if err != nil {
+		panic("c12: bad token " + t)
+	}
+	u := strings.ToLower(t[k:])
+	if u == "" {
+		u = "px"
+	}
+	return cval{n, u}
+}
+
+// px per unit of the absolute lengths (css-values-3 §6.2: 1in = 96px = 2.54cm = 25.4mm = 101.6Q =
+// 72pt = 6pc) and of em in the page context, which has no element: its font-size is the initial
+// value medium = 16px (css-page-3 §"page context", no font property is declared in the generated
+// @page rules).
+var pxPerUnit = map[string]float64{
+	"px": 1, "pt": 96.0 / 72, "pc": 16, "mm": 96 / 25.4, "cm": 96 / 2.54, "in": 96, "q": 96 / 101.6, "em": 16,
+}
+
+// used resolves a cascaded margin / padding value of the page box to px.  Percentages refer to the
+// size of the page sheet (the containing block of the page box): its width for the left and right
+// sides, its HEIGHT for the top and bottom sides (css-page-3 §"Page-based percentages"; CSS 2.1
+// §13.2.1), unlike ordinary boxes.  Auto margins are 0 (width and height of the page box are auto:
+// css-page-3 §5.3 rule 1).
+func (c cval) used(ref float64) float64 {
+	switch c.U {
+	case "auto":
+		return 0
+	case "%":
+		return c.N * ref / 100
+	}
+	f, ok := pxPerUnit[c.U]
+	if !ok {
+		panic("c12: unknown unit " + c.U)
+	}
+	return c.N * f
+}
+
 // cascadePage returns the cascaded value of every longhand the rules declare for the page.
 // Keys: size-w, size-h, margin-top…, padding-top…, counter-reset, counter-increment, mbox.
 // A key that no rule sets is absent (UA defaults are applied by the caller).
-func cascadePage(rules []Rule, f pageFacts, nthMode int) map[string]int {
-	val := map[string]int{}
+func cascadePage(rules []Rule, f pageFacts, nthMode int) map[string]cval {
+	val := map[string]cval{}
 	wt := map[string]weight{}
 	order := 0
-	set := func(key string, v int, w weight) {
+	set := func(key string, v cval, w weight) {
 		if old, ok := wt[key]; ok && w.less(old) {
 			return
 		}
@@ -150,15 +209,17 @@ func cascadePage(rules []Rule, f pageFacts, nthMode int) map[string]int {
 			w := weight{precedence(r.Origin, d.Imp), spec, order}
 			switch d.P {
 			case "size":
-				set("size-w", d.V[0], w)
-				set("size-h", d.V[1], w)
+				set("size-w", parseTok(d.tok(0)), w)
+				set("size-h", parseTok(d.tok(1)), w)
 			case "margin", "padding":
-				e := expand4(d.V)
+				e := expand4([]int{0, 1, 2, 3}[:len(d.V)]) // indexes of the values used for top, right, bottom, left
 				for i, s := range sides4 {
-					set(d.P+"-"+s, e[i], w)
+					set(d.P+"-"+s, parseTok(d.tok(e[i])), w)
 				}
+			case "margin-top", "margin-right", "margin-bottom", "margin-left", "padding-top", "padding-right", "padding-bottom", "padding-left":
+				set(d.P, parseTok(d.tok(0)), w)
 			default:
-				set(d.P, d.V[0], w)
+				set(d.P, cval{float64(d.V[0]), "px"}, w)
 			}
 		}
 	}
@@ -174,34 +235,47 @@ type pageGeom struct {
 	HasReset, HasIncr bool
 	Reset, Incr       int
 	MBox              int // -1: no @bottom-center content
+	// evidence: unit of the cascaded value behind each margin / padding ("" = user-agent default),
+	// unit of the size, and whether the sheet is square
+	MU, PU [4]string
+	SU     string
+	Square bool
 }
 
-func geomFrom(c map[string]int) pageGeom {
+func geomFrom(c map[string]cval) pageGeom {
 	var g pageGeom
 	sw, sh := a4W, a4H
 	if v, ok := c["size-w"]; ok {
-		sw, sh = float64(v), float64(c["size-h"])
+		sw, sh = v.used(0), c["size-h"].used(0)
+		g.SU = v.U
 	}
+	g.Square = sw == sh
 	for i, s := range sides4 {
+		ref := sw
+		if i == 0 || i == 2 {
+			ref = sh // top and bottom: percentages of the sheet height
+		}
 		g.Margin[i] = 75 // UA sheet: @page { margin: 75px }
 		if v, ok := c["margin-"+s]; ok {
-			g.Margin[i] = float64(v)
+			g.Margin[i] = v.used(ref)
+			g.MU[i] = v.U
 		}
 		if v, ok := c["padding-"+s]; ok {
-			g.Padding[i] = float64(v)
+			g.Padding[i] = v.used(ref)
+			g.PU[i] = v.U
 		}
 	}
 	g.W = sw - g.Margin[1] - g.Margin[3] - g.Padding[1] - g.Padding[3]
 	g.H = sh - g.Margin[0] - g.Margin[2] - g.Padding[0] - g.Padding[2]
 	if v, ok := c["counter-reset"]; ok {
-		g.HasReset, g.Reset = true, v
+		g.HasReset, g.Reset = true, int(v.N)
 	}
 	if v, ok := c["counter-increment"]; ok {
-		g.HasIncr, g.Incr = true, v
+		g.HasIncr, g.Incr = true, int(v.N)
 	}
 	g.MBox = -1
 	if v, ok := c["mbox"]; ok {
-		g.MBox = v
+		g.MBox = int(v.N)
 	}
 	return g
 }
